@@ -6,6 +6,7 @@ Mod: name, ports [(name, dir, width)], nets {name: (msb, lsb)}, insts [Inst], as
 Inst: name, ref (module name), conns: dict port -> atoms (named map) or list of atoms per position (positional),
       params {name: token}, attrs {k: v|None}
 atom: ('const', '0'|'1') | (net, hi, lo)   (MSB-first inside an expression)"""
+import re
 
 
 class Mod:
@@ -249,11 +250,17 @@ def write(mods, r, features=()):
                 out.append("  assign %s = %s;" % (fmt_expr(r, m, lhs), fmt_expr(r, m, rhs)))
         out.append("endmodule")
         if m.prim:
-            out.append("`endcelldefine")
+            # a directive line may carry trailing blanks or a comment
+            out.append("`endcelldefine" + (r.choice(["  ", " // end of the cell", " /* cell */", "\t"]) if "comments" in features and r.random() < 0.4 else ""))
         out.append("")
     text = "\n".join(out)
     if "comments" in features:
         text = sprinkle_comments(text, r)
+    if "escaped" in features:
+        # any white space ends an escaped identifier: a tab or the end of the line as well as a blank
+        def ws(mo):
+            return mo.group(1) + (r.choice(["\t", "\n ", " \n"]) if r.random() < 0.2 else " ")
+        text = re.sub(r"(\\[^\s\\]+) ", ws, text)
     return text
 
 
